@@ -424,9 +424,11 @@ def cvc5_check(assumptions, goal, lemmas=(), timeout_s=30):
 
 def make_feasible():
     def feasible(pc):
+        # path pruning only: spec functions are left uninterpreted here (no recursive unfolding, which is where z3 has ignored its
+        # timeout); `unsat` with fewer facts is still `unsat`, so a pruned path really is infeasible
         s = _solver(300)
         for c in pc:
-            s.add(c)
+            s.add(defs.to_uf(c))
         return s.check() != z3.unsat
     return feasible
 
